@@ -25,7 +25,7 @@ RULE = ("family B (80%): generated signatures over the five parameter kinds (0-2
         "plain function, instance method, classmethod, staticmethod (function decorated inside the class), as sync function or "
         "coroutine, generated as source text; x 8 calls that Python itself binds (each parameter by position / by name / by an "
         "accepted alias / omitted; extra positionals and keywords; values valid / convertible / invalid). family G (20%): sync and "
-        "async generator functions with yield / send / return annotations, eager or lazy, driven by a script of next / send / throw steps (the body catches the thrown exception and yields once more). "
+        "async generator functions with yield / send / return annotations, eager or lazy, driven by a script of next / send / throw steps (an Exception or a BaseException subclass; the body catches it and yields once more). "
         "family E (15%): 2-4 positional-or-keyword parameters with Param(dependencies=...) and Options(max_params / min_params / "
         "collect_errors), as plain function, instance method or @staticmethod over @utype.parse with a bare first parameter: the same "
         "argument values are passed all by keyword and with the first j by position, and verdict, error type and the binding the body "
@@ -368,7 +368,8 @@ def make_case(i, rng, tier):
     if rng.random() < 0.2:
         return {"fam": "G", "is_async": rng.random() < 0.4, "eager": rng.random() < 0.5, "yield_t": rng.choice(["int", "str", None]),
                 "send_t": rng.choice(["int", None]), "ret_t": rng.choice(["int", None]), "n": rng.choice([0, 1, 2, 3]),
-                "script": [rng.choice([None, None, "5", 6, "x"] + (["THROW"] if i % 3 == 0 else [])) for _ in range(4)], "arg": rng.choice([2, "3", "x"])}
+                "script": [rng.choice([None, None, "5", 6, "x"] + (["THROW"] if i % 3 == 0 else [])) for _ in range(4)], "arg": rng.choice([2, "3", "x"]),
+                "throw_base": rng.random() < 0.4}
     sig = gen_sig(rng)
     return {"fam": "B", "sig": sig, "calls": [gen_call(rng, sig) for _ in range(8)]}
 
@@ -533,6 +534,10 @@ class ThrownIn(Exception):
     """what the driver throws into a generator (not a ValueError: ParseError is one)"""
 
 
+class ThrownInBase(BaseException):
+    """the same for interruptions that are not Exceptions (KeyboardInterrupt, asyncio.CancelledError are of this kind)"""
+
+
 def run_G(case, ctx):
     import utype
 
@@ -544,7 +549,8 @@ def run_G(case, ctx):
            f"        try:\n            got = yield str(i * 10)\n        except ThrownIn:\n            _seen.append(('thrown', i))\n"
            f"            got = yield str(i * 10 + 5)\n        _seen.append(('sent', got))\n{ret_line}")
     seen = []
-    ns = {"utype": utype, "typing": typing, "_seen": seen, "ThrownIn": ThrownIn}
+    Thrown = ThrownInBase if case.get("throw_base") else ThrownIn
+    ns = {"utype": utype, "typing": typing, "_seen": seen, "ThrownIn": Thrown}
     try:
         exec(src, ns)
         raw = ns["gen"]
@@ -565,10 +571,10 @@ def run_G(case, ctx):
                 trace.append(("yield", item))
                 sv = script[i % len(script)]
                 i += 1
-                item = g.throw(ThrownIn("thrown in")) if sv == "THROW" else g.send(sv) if sv is not None else next(g)
+                item = g.throw(Thrown("thrown in")) if sv == "THROW" else g.send(sv) if sv is not None else next(g)
         except StopIteration as e:
             trace.append(("return", e.value))
-        except ThrownIn:
+        except Thrown:
             trace.append(("raised", "ThrownIn"))
         return trace
 
@@ -581,10 +587,10 @@ def run_G(case, ctx):
                 trace.append(("yield", item))
                 sv = script[i % len(script)]
                 i += 1
-                item = await (g.athrow(ThrownIn("thrown in")) if sv == "THROW" else g.asend(sv) if sv is not None else g.__anext__())
+                item = await (g.athrow(Thrown("thrown in")) if sv == "THROW" else g.asend(sv) if sv is not None else g.__anext__())
         except StopAsyncIteration:
             trace.append(("return", None))
-        except ThrownIn:
+        except Thrown:
             trace.append(("raised", "ThrownIn"))
         return trace
 
